@@ -28,10 +28,9 @@ RULE = (
     "1-4 service tasks with teardown_action in {cancel, None, sync callable, async callable (optionally slow), callable raising Exception, "
     "callable raising BaseException} x {waits to be stopped, ends by itself at d} x clean-up time {0, 0.5, 1, 2} (shielded after cancellation) x "
     "own-context teardown callback x task_status.started(value); root or nested owner; block ends at a random virtual time; 15% crash programs "
+    "(task raises while running / after being stopped). "
     "Teardown actions and task functions are functions, partials, hashable / unhashable callable objects, bound methods of built-ins or method-wrappers. "
-    "(task raises while running / after being stopped). Non-trivial: a service task with registrations both before and after it; distinct = "
-    "interleaving signature."
-)
+    "Non-trivial: a service task with registrations both before and after it; distinct = ")
 DECIDING = {
     "programs_with_registrations_around_services": "service tasks surrounded by other registrations",
     "action_cancel": "teardown_action='cancel'",
